@@ -392,14 +392,26 @@ def direct_aliases(fi):
         if isinstance(n, ast.Assign):
             for t in n.targets:
                 for x in ast.walk(t):
-                    if isinstance(x, ast.Name):
+                    if isinstance(x, ast.Name) and isinstance(x.ctx, ast.Store):
                         defs.setdefault(x.id, []).append(n.value if x is t else None)
         elif isinstance(n, (ast.AugAssign, ast.For, ast.NamedExpr)):
             for x in ast.walk(n.target):
-                if isinstance(x, ast.Name):
+                if isinstance(x, ast.Name) and isinstance(x.ctx, ast.Store):
                     defs.setdefault(x.id, []).append(None)
     out = {}
     for k, vs in defs.items():
         if all(v is not None and is_self_attr(v) for v in vs) and len({v.attr for v in vs}) == 1 and k not in fi.params:
             out[k] = vs[0].attr
     return out
+
+
+def const_int(e):
+    """value of an integer constant expression (literals combined with << | + - * **), else None"""
+    if isinstance(e, ast.Constant) and isinstance(e.value, int) and not isinstance(e.value, bool):
+        return e.value
+    if isinstance(e, ast.BinOp) and isinstance(e.op, (ast.LShift, ast.BitOr, ast.Add, ast.Sub, ast.Mult, ast.Pow)):
+        a, b = const_int(e.left), const_int(e.right)
+        if a is None or b is None or b > 64:
+            return None
+        return {ast.LShift: lambda: a << b, ast.BitOr: lambda: a | b, ast.Add: lambda: a + b, ast.Sub: lambda: a - b, ast.Mult: lambda: a * b, ast.Pow: lambda: a ** b}[type(e.op)]()
+    return None
